@@ -34,6 +34,16 @@ class EnumMember:
         return f'{self.cls.rpartition(".")[2]}.{self.name}'
 
 
+class Instance:
+    """A value object of a kernpy class built from constants: the attributes its __init__ stores (interpreted, never run)."""
+    def __init__(self, ci):
+        self.ci = ci
+        self.attrs = {}
+
+    def __repr__(self):
+        return f'<{self.ci.name} {self.attrs!r}>'
+
+
 class ClassRef:
     def __init__(self, ci: ClassInfo):
         self.ci = ci
@@ -270,6 +280,13 @@ class ConstEval:
                 if node.attr in ci.nested:
                     return ClassRef(ci.nested[node.attr])
                 raise NotConst(f'{ci.name}.{node.attr}')
+            if isinstance(base, Instance):
+                if node.attr in base.attrs:
+                    return base.attrs[node.attr]
+                r = self.prog.find_class_attr(base.ci, node.attr)
+                if r is not None:
+                    return self._guard(('c', r[1].qualname, node.attr), lambda: self.eval(r[0], r[1].module, r[1], {}))
+                raise NotConst(f'attribute {node.attr} of a {base.ci.name} object')
             if isinstance(base, EnumMember):
                 if node.attr == 'value':
                     return base.value
@@ -378,7 +395,7 @@ class ConstEval:
     _MUTATORS = {'append', 'extend', 'add', 'update', 'setdefault', 'insert', 'discard', 'sort', 'reverse'}
     STEP_LIMIT = 200000
 
-    def _run_function(self, fi, args, kwargs):
+    def _run_function(self, fi, args, kwargs, fresh=()):
         """Interpret a side-effect-free kernpy function on concrete arguments: assignments to locals, loops, tests, in-place
         changes of containers created in this activation, return.  Anything else is NotConst.  No repository code runs."""
         import copy as _copy
@@ -410,7 +427,7 @@ class ConstEval:
                     raise NotConst('missing argument')
                 env[n_] = self.eval(dflt[n_], fi.module, fi.cls, {})
         key = ('run', fi.qualname, repr(sorted((k, repr(v)[:200]) for k, v in env.items())))
-        st = {'steps': 0, 'fresh': set(), 'keep': []}
+        st = {'steps': 0, 'fresh': {id(x) for x in fresh}, 'keep': list(fresh)}
 
         def run():
             sig, val = self._run_block(fi.node.body, fi, env, st)
@@ -421,6 +438,21 @@ class ConstEval:
             except Exception:
                 return val
         return self._guard(key, run)
+
+    def _construct(self, ci, args, kwargs):
+        """Value object: the class's __init__ (first along the MRO, defined in kernpy) interpreted on a new Instance."""
+        if kwargs is None:
+            raise NotConst('** call')
+        init = self.prog.find_method(ci, '__init__')
+        inst = Instance(ci)
+        if init is None:
+            if args or kwargs:
+                raise NotConst('constructor arguments without __init__')
+            return inst
+        if init.module.generated or init.decorators:
+            raise NotConst('constructor not interpreted')
+        self._run_function(init, [inst] + list(args), kwargs, fresh=[inst])
+        return inst
 
     def _fresh(self, st, node, val):
         if isinstance(node, self._FRESH_NODES) or (isinstance(node, ast.Call) and isinstance(node.func, ast.Name)
@@ -548,6 +580,11 @@ class ConstEval:
                 raise
             except Exception as e:
                 raise NotConst(f'item store failed: {e}')
+        elif isinstance(t, ast.Attribute):
+            obj = self.eval(t.value, fi.module, fi.cls, env)
+            if not isinstance(obj, Instance) or id(obj) not in st['fresh']:
+                raise NotConst('attribute store into an object the function did not create')
+            obj.attrs[t.attr] = val
         else:
             raise NotConst('store target')
 
@@ -604,7 +641,7 @@ class ConstEval:
         ev = lambda n: self.eval(n, mod, cls, env)
         f = node.func
         if node.keywords and not (isinstance(f, ast.Name) and f.id in ('sorted', 'dict')) \
-                and not (isinstance(f, ast.Name) and f.id not in env and getattr(self.prog.resolve(mod, f.id), 'kind', None) == 'def'):
+                and not (isinstance(f, ast.Name) and f.id not in env and getattr(self.prog.resolve(mod, f.id), 'kind', None) in ('def', 'class')):
             raise NotConst('keyword call')
         if isinstance(f, ast.Name) and f.id == 'isinstance' and f.id not in env and len(node.args) == 2 and not node.keywords:
             types = {'int': int, 'str': str, 'bool': bool, 'float': float, 'list': list, 'tuple': tuple, 'set': set, 'dict': dict,
@@ -653,6 +690,9 @@ class ConstEval:
                 # statement by the checker (bounded; only objects created in the activation may be changed)
                 return self._run_function(fi, [ev(x) for x in node.args], {k.arg: ev(k.value) for k in node.keywords if k.arg}
                                           if all(k.arg for k in node.keywords) else None)
+            if b is not None and b.kind == 'class' and not self.prog.is_enum(b.value) and not b.value.module.generated:
+                return self._construct(b.value, [ev(x) for x in node.args],
+                                       {k.arg: ev(k.value) for k in node.keywords} if all(k.arg for k in node.keywords) else None)
             if b is not None and b.kind == 'external' and b.value in ('copy.deepcopy', 'copy.copy'):
                 return ev(node.args[0])
             if b is not None and b.kind == 'external' and b.value in ('collections.OrderedDict',):
